@@ -43,6 +43,11 @@ fn remove_invalid_compumethod_refs(module: &mut Module) {
         }
     }
     for typedef_characteristic in &mut module.typedef_characteristic {
+        for axis_descr in &mut typedef_characteristic.axis_descr {
+            if !module.compu_method.contains_key(&axis_descr.conversion) {
+                axis_descr.conversion = "NO_COMPU_METHOD".to_string();
+            }
+        }
         if !module
             .compu_method
             .contains_key(&typedef_characteristic.conversion)
@@ -78,17 +83,22 @@ fn remove_unused_compumethods(module: &mut Module) {
         used_compumethods.insert(typedef_axis.conversion.clone());
     }
     for typedef_characteristic in &mut module.typedef_characteristic {
+        for axis_descr in &typedef_characteristic.axis_descr {
+            used_compumethods.insert(axis_descr.conversion.clone());
+        }
         used_compumethods.insert(typedef_characteristic.conversion.clone());
+    }
+    // an INSTANCE can replace the conversion of its type with OVERWRITE / CONVERSION
+    for instance in &module.instance {
+        for overwrite in &instance.overwrite {
+            if let Some(conversion) = &overwrite.conversion {
+                used_compumethods.insert(conversion.name.clone());
+            }
+        }
     }
     for typedef_measurement in &mut module.typedef_measurement {
         used_compumethods.insert(typedef_measurement.conversion.clone());
     }
-    for compu_method in &mut module.compu_method {
-        if let Some(ssr) = compu_method.status_string_ref.as_ref() {
-            used_compumethods.insert(ssr.conversion_table.clone());
-        }
-    }
-
     module
         .compu_method
         .retain(|item| used_compumethods.contains(&item.name));
@@ -102,6 +112,10 @@ fn remove_unused_sub_elements(module: &mut Module) {
     for compu_method in &module.compu_method {
         if let Some(compu_tab_ref) = &compu_method.compu_tab_ref {
             used_compu_tabs.insert(compu_tab_ref.conversion_table.clone());
+        }
+        // STATUS_STRING_REF refers to a COMPU_VTAB
+        if let Some(status_string_ref) = &compu_method.status_string_ref {
+            used_compu_tabs.insert(status_string_ref.conversion_table.clone());
         }
         if let Some(ref_unit) = &compu_method.ref_unit {
             used_units.insert(ref_unit.unit.clone());
@@ -118,10 +132,17 @@ fn remove_unused_sub_elements(module: &mut Module) {
         .compu_vtab_range
         .retain(|item| used_compu_tabs.contains(&item.name));
 
-    // remove all unused UNITs
-    for unit in &module.unit {
-        if let Some(ref_unit) = &unit.ref_unit {
-            used_units.insert(ref_unit.unit.clone());
+    // remove all unused UNITs. A UNIT is used if a COMPU_METHOD refers to it, or if a used UNIT refers to it
+    let mut new_units: Vec<String> = used_units.iter().cloned().collect();
+    while let Some(unit_name) = new_units.pop() {
+        if let Some(ref_unit) = module
+            .unit
+            .get(&unit_name)
+            .and_then(|unit| unit.ref_unit.as_ref())
+        {
+            if used_units.insert(ref_unit.unit.clone()) {
+                new_units.push(ref_unit.unit.clone());
+            }
         }
     }
 
